@@ -192,22 +192,30 @@ _EXTRA = {
     'C10': ' Also: pull/peek results are (key, value) of the selected row in the requested shape (B2); the counter of '
            'a prefixed key is never cut out with character-set stripping (Q3).',
     'C13': ' Also: named sub-containers have one handle per name, created only when the name is absent (S7); no '
-           'class-level mutable containers and no stores on class objects (I2).',
+           'class-level mutable containers and no stores on class objects (I2); the three kinds are memoised under '
+           'distinct entries and a caller-supplied name reaches os.path.join only as pieces that cannot be absolute '
+           '(S7); __contains__ applies `in` to the hashed shard (S1); every attempt of the bulk-removal loop is counted '
+           'exactly once, followed over two shards (S4).',
     'C11': ' Also: append/appendleft keep the length at min(n + 1, maxlen) for every maxlen including 0, decided on a '
            'finite (maxlen, length) abstraction of the enumerated paths (I3); the rich comparisons have sequence '
            'semantics and each is built from its own operator (I4). Each method delegates to the right primitive with the right side/sentinel/retry constants and '
-           'rotate re-inserts exactly what it popped (I1, L3).',
+           'rotate re-inserts exactly what it popped (I1, L3). No iterator of the package stays suspended inside a '
+           'transaction or an open cursor (B7).',
     'C12': ' Also: the delegation table and the sentinel-based equality hold (I1, L3); alternate constructors set the '
-           'instance fields __init__ sets, nothing is stored on the class (I2).',
+           'instance fields __init__ sets, nothing is stored on the class (I2); an update() that takes keyword items '
+           'names no other keyword-capturable parameter (I1); no iterator stays suspended inside a transaction or an '
+           'open cursor (B7).',
     'C16': ' Also: decorator factories keep no state between decorated functions (M4); the lookup result shape survives '
            'the vanished-file path that memoize_stampede unpacks (B2); the wrapper\'s __cache_key__ is assigned after '
-           'the metadata copy of functools.wraps/update_wrapper (M5).',
+           'the metadata copy of functools.wraps/update_wrapper (M5); one-shot iterators in args_to_key are consumed once '
+           '(M1); the stampede refresh marker key ends in a module sentinel (M3).',
     'C17': ' Also: every warning about a repairable inconsistency is followed by its repair under fix (H5); both directory scans run on every path and compare os.path.join-ed paths (H4).',
     'C18': ' Also: setting prefixes are stripped exactly and reset() writes through to the Settings table (B5, B6); '
            'connections are opened in autocommit mode with the object\'s timeout (L6); statements name only '
            'tables and indexes that __init__ creates unconditionally and nothing drops (P5); a FanoutCache passes its '
            'shards only caller-supplied settings (P6 - violated for size_limit, known finding); tables, the unique '
-           'key index and the counter triggers are created on every path of __init__ (P7).',
+           'key index and the counter triggers are created on every path of __init__ (P7); JSONDisk renders JSON with '
+           'the default text options, the text being the database key (P3).',
     'C19': ' Also: every method performs exactly one downstream operation on every return path (D4); the memoize key '
            'hook stays user-level and the wrapper goes through the adapter methods (D5); the constructor does not '
            'mutate the configuration mapping shared by all backend instances (D6); no class-level mutable state (I2).',
